@@ -8,6 +8,9 @@ RULE = (
     "intercept literals 0/1/-1 at additive positions is rendered to a formula, run through "
     "model_description and compared with the frozenset reference model; a case is non-trivial when the "
     "formula contains at least one operator other than + and the implementation returned a model"
+    '  Added strata: keyword-call atoms f(x, p=2) / f(x, p=3); variables named Intercept / NegatedIntercept on '
+    'both sides of |; two spellings of one interaction in a union; for every tree of <= 3 leaves the '
+    'description is the same before and after design_matrices on the same text. '
 )
 ASSUMPTIONS = [
     "reference algebra (fmc/refmodel/algebra.py) is the documented definition; pinned by fmc selftest",
